@@ -466,6 +466,9 @@ def consumer_state(ctx, rid):
                 rv = st[2]
                 ok = rv[0] == "use" and rv[1][0] == "k"
                 why = "latched to a constant"
+                if not ok and rv[0] == "bin" and rv[1] in ("BitOr", "BitAnd") and any(
+                        r.kind in ("param", "local") and fld in r.proj for x in rv[2:4] if x[0] != "k" for r in f.trace_operand(x)):
+                    ok, why = True, "monotone latch (`|=` / `&=` with itself)"
                 if not ok and rv[0] == "use":
                     for o in f.trace_operand(rv[1]):
                         if o.kind == "call" and o.ref.name in COUNTER_OPS and o.ref.args and any(
